@@ -11,8 +11,14 @@ Statements are about `Model.Layout.get` / `offsetsMatch` / `checkAll` (the model
 into `Gen.LayoutTables`) and the independent reference calculators `Spec.Layout.hlslSB` /
 `Spec.Layout.metal`.  Every theorem below is at full strength: the only hypotheses are that the element
 type has a reference layout at all (`wf`: the property's grid — half/int/uint/float/double, vectors of
-1–4, 32-bit enums, arrays of ≥ 1 element, non-empty structs, nested to any depth) and, for the
-no-panic / completeness statements, that the two reference sizes fit in `u32`.
+1–4, 32-bit enums, arrays of ≥ 1 element, structs (empty ones included), nested to any depth) and, for the
+"no unknown size" / completeness statements, that the two reference sizes fit in `u32`.
+
+Fix batch 2 (/repo 24ea36f, c062f2e, d99f90e, d25724e): sizes beyond 32 bits are "unknown size" instead of a
+panic (`check_never_panics`), a typed load that still depends on a template parameter is skipped, arrays of
+structured buffers are collected (the former witness `buffer_arrays_not_validated` is now the positive
+`property_uses_collected_partial`; one shape is still missed: `typedef_buffer_array_not_validated`), an empty
+struct has its Metal byte (the former witness `empty_struct_unsound` is now covered by `check_sound_full`).
 
 History: on the tree before /repo commit 0414772 the statements `check_sound` and `reported_sizes_true`
 were false (`{struct{float2;float}; float}` accepted with 16 vs 24 bytes, `{half; half2; float}` accepted
@@ -155,8 +161,10 @@ def rawBufferObjects : List String := ["ByteAddressBuffer", "RWByteAddressBuffer
     the method tables of `get_methods`), not from `layout_checker.rs`: every object type whose element may be a
     structure is a structured buffer (and then matched by `check_layout`) or one of the two kinds the property
     does not name; every object method templated on a type `T` is a load / store of a raw buffer or buffer
-    address and its intrinsic is matched by `check_layout`; nothing else is matched; the loops look below
-    modifiers, de-duplicate by type id and take the single type argument. -/
+    address and its intrinsic is matched by `check_layout`; nothing else is matched; the global loop looks below
+    a modifier, then below array layers, then below one more modifier (since /repo d99f90e); the function loop
+    skips type arguments that depend on a template parameter (since /repo c062f2e); both de-duplicate by type id
+    and take the single type argument. -/
 theorem collection_sites_covered :
     (∀ o ∈ structElementObjects, o ∈ propertyObjects ∨ o ∈ ["ConstantBuffer", "TriangleStream"]) ∧
     (∀ o ∈ propertyObjects, o ∈ checkedObjects ∧ (o, true) ∈ objectTypes ∧ o ∈ structElementObjects) ∧
@@ -164,7 +172,9 @@ theorem collection_sites_covered :
     (∀ o ∈ rawBufferObjects, (o, false) ∈ objectTypes ∧ ∃ t ∈ typedMethods, t.1 = o) ∧
     (∀ i ∈ checkedIntrinsics, ∃ t ∈ typedMethods, t.2.2.1 = i) ∧
     (∀ o ∈ checkedObjects, o ∈ propertyObjects) ∧
-    globalLoopStripsModifier = true ∧ dedupByTypeId = true ∧ fnLoopOneTypeArgument = true := by
+    globalLoopStripsModifier = true ∧ globalLoopStripsArray = true ∧
+    globalPeelOps = [.removeModifier, .nonArray, .removeModifier] ∧ fnLoopSkipsDependent = true ∧
+    dedupByTypeId = true ∧ fnLoopOneTypeArgument = true := by
   decide
 
 /-- **When validation runs and what it prints.**  `compile` calls `check_layout` exactly when
@@ -179,11 +189,74 @@ theorem diagnostic_pinned :
     fnLocationIsStructDefinition = true := by
   decide
 
-/-- a use of the type `r` that the property names: the element type of a global (RW)StructuredBuffer (below any
-    modifiers), or the type argument of an instantiated typed load / store of a raw buffer or buffer address -/
+/-- the buffer object a global is made of, below `Modifier` and `Array` layers in any order: in the property's
+    words every element of an array of structured buffers is a structured buffer -/
+def bufferElem : GTy → Option (String × TyRef)
+  | .object k (some r) => some (k, r)
+  | .modifier t => bufferElem t
+  | .array t => bufferElem t
+  | _ => none
+
+/-- `Object(k<r>)` or `Modifier(Object(k<r>))` -/
+inductive Elem (k : String) (r : TyRef) : GTy → Prop
+  | obj : Elem k r (.object k (some r))
+  | mod : Elem k r (.modifier (.object k (some r)))
+
+/-- zero or more `Array` layers above that: `T g`, `T g[a]`, `T g[a][b]`, … -/
+inductive ArrOf (k : String) (r : TyRef) : GTy → Prop
+  | base {t : GTy} (h : Elem k r t) : ArrOf k r t
+  | arr {t : GTy} (h : ArrOf k r t) : ArrOf k r (.array t)
+
+/-- … optionally below one more `Modifier`: the shapes of a buffer global with a *directly written* buffer type
+    (an extern global's base type is made `const` before the declarator's dimensions are applied) -/
+inductive Direct (k : String) (r : TyRef) : GTy → Prop
+  | plain {t : GTy} (h : ArrOf k r t) : Direct k r t
+  | mod {t : GTy} (h : ArrOf k r t) : Direct k r (.modifier t)
+
+theorem removeModifier_elem {k : String} {r : TyRef} {t : GTy} (h : Elem k r t) :
+    removeModifier t = .object k (some r) := by
+  cases h <;> rfl
+
+theorem nonArray_arrOf {k : String} {r : TyRef} {t : GTy} (h : ArrOf k r t) : Elem k r (nonArray t) := by
+  induction h with
+  | base h => cases h <;> exact (by first | exact .obj | exact .mod)
+  | arr _ ih => exact ih
+
+theorem removeModifier_arrOf {k : String} {r : TyRef} {t : GTy} (h : ArrOf k r t) :
+    ArrOf k r (removeModifier t) := by
+  cases h with
+  | base h => cases h <;> exact .base .obj
+  | arr h => exact .arr h
+
+/-- the global loop's three peeling statements reach the buffer object of every `Direct` shape -/
+theorem peel_direct {k : String} {r : TyRef} {t : GTy} (h : Direct k r t) :
+    peel globalPeelOps t = .object k (some r) := by
+  show removeModifier (nonArray (removeModifier t)) = _
+  cases h with
+  | plain h => exact removeModifier_elem (nonArray_arrOf (removeModifier_arrOf h))
+  | mod h => exact removeModifier_elem (nonArray_arrOf h)
+
+theorem direct_bufferElem {k : String} {r : TyRef} {t : GTy} (h : Direct k r t) : bufferElem t = some (k, r) := by
+  have he : ∀ u, Elem k r u → bufferElem u = some (k, r) := by
+    intro u hu; cases hu <;> rfl
+  have ha : ∀ u, ArrOf k r u → bufferElem u = some (k, r) := by
+    intro u hu
+    induction hu with
+    | base h => exact he _ h
+    | arr _ ih => exact ih
+  cases h with
+  | plain h => exact ha _ h
+  | mod h => simp only [bufferElem]; exact ha _ h
+
+/-- a use of the type `r` that the property names: the element type of a global (RW)StructuredBuffer or of a
+    global array (of any dimensions) of them, or the type argument of an instantiated typed load / store of a raw
+    buffer or buffer address.  *Narrower than the property's words* in two ways: the buffer type must be written
+    directly (`Direct`; an array of a typedef'd array of buffers, `Array(Modifier(Array(Object)))`, is a buffer
+    array too — `bufferElem` — but the loop misses it: `typedef_buffer_array_not_validated`), and a buffer that
+    is a member of a global struct is not expressible (`GTy.other`; known finding `accepted/site-sbmem`). -/
 inductive PropertyUse (m : Module) (r : TyRef) : Prop
   | buffer (g : Global) (hg : g ∈ m.globals) (k : String) (hk : k ∈ propertyObjects)
-      (h : removeModifier g.ty = .object k (some r))
+      (h : Direct k r g.ty)
   | access (f : Fn) (hf : f ∈ m.fns) (t : String × String × String × Nat) (ht : t ∈ typedMethods)
       (hi : f.intrinsic = some t.2.2.1) (ha : f.template = some [.type r])
 
@@ -195,36 +268,54 @@ def Matched (m : Module) (r : TyRef) : Prop :=
 def Consistent (m : Module) : Prop :=
   ∀ r r', Matched m r → Matched m r' → r.id = r'.id → r.ty = r'.ty
 
-theorem propertyUse_matched (m : Module) (r : TyRef) (h : PropertyUse m r) : Matched m r := by
+/-- a type of the grid does not depend on a template parameter -/
+theorem wf_not_dependent : ∀ t : Ty, wf t = true → isDependent t = false
+  | .scalar _, _ => rfl
+  | .vec _ _, _ => rfl
+  | .enum _, _ => rfl
+  | .struct _, _ => rfl
+  | .other _, h => by simp [wf] at h
+  | .arr t n, h => by
+    simp only [wf, Bool.and_eq_true] at h
+    simp only [isDependent]
+    exact wf_not_dependent t h.2
+
+theorem propertyUse_matched (m : Module) (r : TyRef) (h : PropertyUse m r) (hd : isDependent r.ty = false) :
+    Matched m r := by
   cases h with
   | buffer g hg k hk h =>
-    refine Or.inl ⟨g, hg, k, h, ?_⟩
+    refine Or.inl ⟨g, hg, k, peel_direct h, ?_⟩
     have := (collection_sites_covered.2.1 k hk).1
     simpa using this
   | access f hf t ht hi ha =>
-    refine Or.inr ⟨f, hf, t.2.2.1, hi, ?_, ha⟩
+    refine Or.inr ⟨f, hf, t.2.2.1, hi, ?_, ha, by simp [hd]⟩
     have := (collection_sites_covered.2.2.1 t ht).2
     simpa using this
 
-/-- **Every use the property names is collected**: its type id is among `types_to_check`. -/
-theorem property_uses_collected (m : Module) (l : List Entry) (h : collect m = .ok l) (r : TyRef)
-    (hu : PropertyUse m r) : ∃ e ∈ l, e.ref.id = r.id := by
-  rcases propertyUse_matched m r hu with ⟨g, hg, hh⟩ | ⟨f, hf, hh⟩
+/-- **Every use the property names is collected** (partial: see `PropertyUse` for the two classes of use that are
+    missing): the type id of a concrete type (one that does not depend on a template parameter — a load inside a
+    template is a use only once the template is instantiated) is among `types_to_check`.  Since /repo d99f90e this
+    includes the element type of every directly declared array of structured buffers. -/
+theorem property_uses_collected_partial (m : Module) (l : List Entry) (h : collect m = .ok l) (r : TyRef)
+    (hu : PropertyUse m r) (hd : isDependent r.ty = false) : ∃ e ∈ l, e.ref.id = r.id := by
+  rcases propertyUse_matched m r hu hd with ⟨g, hg, hh⟩ | ⟨f, hf, hh⟩
   · exact collect_global m l h g hg r hh
   · exact collect_fn m l h f hf r hh
 
-/-- **Soundness of `check_layout` as a whole.**  If it accepts a module, every structure used as the element
-    type of a structured buffer or of a typed raw-buffer / buffer-address load or store has the same total size
-    and the same byte offset of every field, recursively, under both reference calculators. -/
-theorem check_layout_sound (m : Module) (hc : Consistent m) (h : checkLayout m = .ok) (r : TyRef)
+/-- **Soundness of `check_layout` as a whole** (partial only through `PropertyUse`).  If it accepts a module,
+    every structure used as the element type of a structured buffer (or of an array of structured buffers) or of
+    a typed raw-buffer / buffer-address load or store has the same total size and the same byte offset of every
+    field, recursively, under both reference calculators. -/
+theorem check_layout_sound_partial (m : Module) (hc : Consistent m) (h : checkLayout m = .ok) (r : TyRef)
     (hu : PropertyUse m r) (hw : wf r.ty = true) :
     ∃ rh rm, hlslSB r.ty = some rh ∧ metal r.ty = some rm ∧ rh.size = rm.size ∧ rh.fields = rm.fields := by
   unfold checkLayout at h
   split at h
   · rename_i l hl
-    obtain ⟨e, he, hid⟩ := property_uses_collected m l hl r hu
+    have hd := wf_not_dependent r.ty hw
+    obtain ⟨e, he, hid⟩ := property_uses_collected_partial m l hl r hu hd
     have hm : Matched m e.ref := collect_origin m l hl e he
-    have hty : e.ref.ty = r.ty := hc e.ref r hm (propertyUse_matched m r hu) hid
+    have hty : e.ref.ty = r.ty := hc e.ref r hm (propertyUse_matched m r hu hd) hid
     exact check_sound _ h r.ty (by rw [← hty]; exact List.mem_map.2 ⟨e, he, rfl⟩) hw
   · cases h
   · cases h
@@ -256,13 +347,38 @@ theorem check_layout_reports_true_sizes (m : Module) (i : Nat) (lh lm : Layout)
 private def sF : Ty := .struct (Tys.ofList [.scalar .Float32, .vec .Float32 2])
 private def sG : Ty := .struct (Tys.ofList [.scalar .Float32, .scalar .Float32])
 
-/-- **The collection is incomplete (negation witness).**  A global that is an *array* of structured buffers
-    is not looked at: the module is accepted although its element structure is 12 bytes under HLSL packing and
-    16 under Metal.  (Replayed on the real compiler by `C19.prog vk:np:0 {f f2} sbarr@0`; known finding
-    `accepted/site-sbarr`.) -/
-theorem buffer_arrays_not_validated :
-    checkLayout ⟨[⟨.array (.object "StructuredBuffer" (some ⟨0, sF⟩)), "g"⟩], []⟩ = .ok ∧
+/-- **The collection is still incomplete (negation witness).**  An array of a *typedef'd array* of structured
+    buffers — `typedef StructuredBuffer<S> A[2]; A g[3];`, whose type is `Array(Modifier(const, Array(Object)))` because
+    the `const` of an extern global lands between the two array layers — is a structured-buffer array
+    (`bufferElem`), but `get_non_array_id` stops at the modifier: the module is accepted although the element
+    structure is 12 bytes under HLSL packing and 16 under Metal.  (Replayed on the real compiler by
+    `C19.prog vk:np:0 {f f2} sbarrtd@0`; known finding `accepted/site-sbarr-typedef`.  The plain arrays of the former
+    witness `buffer_arrays_not_validated` are rejected now, see the next example.) -/
+theorem typedef_buffer_array_not_validated :
+    checkLayout ⟨[⟨.array (.modifier (.array (.object "StructuredBuffer" (some ⟨0, sF⟩)))), "g"⟩], []⟩ = .ok ∧
+    (bufferElem (.array (.modifier (.array (.object "StructuredBuffer" (some ⟨0, sF⟩)))))).map
+      (fun p => (p.1, p.2.id)) = some ("StructuredBuffer", 0) ∧
     wf sF = true ∧ ¬ Agree sF := by
+  decide
+
+/-- the former witness turned positive: arrays of structured buffers (as the model saw them then, and as the type
+    checker really builds them: `Array(Modifier(const, Object))`), of one and two dimensions, also a typedef'd array
+    declared without further dimensions, are rejected with the true sizes -/
+example :
+    checkLayout ⟨[⟨.array (.object "StructuredBuffer" (some ⟨0, sF⟩)), "g"⟩], []⟩ = .mismatch 0 ⟨12, 4⟩ ⟨16, 8⟩ ∧
+    checkLayout ⟨[⟨.array (.modifier (.object "StructuredBuffer" (some ⟨0, sF⟩))), "g"⟩], []⟩ = .mismatch 0 ⟨12, 4⟩ ⟨16, 8⟩ ∧
+    checkLayout ⟨[⟨.array (.array (.modifier (.object "RWStructuredBuffer" (some ⟨0, sF⟩)))), "g"⟩], []⟩
+      = .mismatch 0 ⟨12, 4⟩ ⟨16, 8⟩ ∧
+    checkLayout ⟨[⟨.modifier (.array (.object "StructuredBuffer" (some ⟨0, sF⟩))), "g"⟩], []⟩ = .mismatch 0 ⟨12, 4⟩ ⟨16, 8⟩ ∧
+    Direct "RWStructuredBuffer" ⟨0, sF⟩ (.array (.array (.modifier (.object "RWStructuredBuffer" (some ⟨0, sF⟩))))) :=
+  ⟨by decide, by decide, by decide, by decide, .plain (.arr (.arr (.base .mod)))⟩
+
+/-- a typed load whose type argument still depends on a template parameter (`T`, `T[2]`) is skipped, wherever it
+    stands; the first concrete failure is still reported -/
+example :
+    checkLayout ⟨[], [⟨some "ByteAddressBufferLoadT", some [.type ⟨7, .other .TemplateParam⟩]⟩]⟩ = .ok ∧
+    checkLayout ⟨[], [⟨some "BufferAddressLoad", some [.type ⟨7, .arr (.other .TemplateParam) 2⟩]⟩,
+      ⟨some "RWBufferAddressStore", some [.type ⟨0, sF⟩]⟩]⟩ = .mismatch 0 ⟨12, 4⟩ ⟨16, 8⟩ := by
   decide
 
 /-- non-vacuity: the same structure behind a plain structured buffer, behind modifiers, or as the argument of a
@@ -279,20 +395,27 @@ example :
         = .mismatch 1 ⟨12, 4⟩ ⟨16, 8⟩ := by
   decide
 
-/-- non-vacuity of `check_layout_sound`: an accepted module with consistent type ids and a use the property names -/
+/-- non-vacuity of `check_layout_sound_partial`: an accepted module with consistent type ids and a use the property
+    names (an array of structured buffers) -/
 example :
-    Consistent ⟨[⟨.object "StructuredBuffer" (some ⟨1, sG⟩), "g"⟩], [⟨some "ByteAddressBufferLoadT", some [.type ⟨1, sG⟩]⟩]⟩ ∧
-    checkLayout ⟨[⟨.object "StructuredBuffer" (some ⟨1, sG⟩), "g"⟩], [⟨some "ByteAddressBufferLoadT", some [.type ⟨1, sG⟩]⟩]⟩ = .ok ∧
-    PropertyUse ⟨[⟨.object "StructuredBuffer" (some ⟨1, sG⟩), "g"⟩], [⟨some "ByteAddressBufferLoadT", some [.type ⟨1, sG⟩]⟩]⟩ ⟨1, sG⟩ ∧
+    Consistent ⟨[⟨.array (.modifier (.object "StructuredBuffer" (some ⟨1, sG⟩))), "g"⟩],
+      [⟨some "ByteAddressBufferLoadT", some [.type ⟨1, sG⟩]⟩]⟩ ∧
+    checkLayout ⟨[⟨.array (.modifier (.object "StructuredBuffer" (some ⟨1, sG⟩))), "g"⟩],
+      [⟨some "ByteAddressBufferLoadT", some [.type ⟨1, sG⟩]⟩]⟩ = .ok ∧
+    PropertyUse ⟨[⟨.array (.modifier (.object "StructuredBuffer" (some ⟨1, sG⟩))), "g"⟩],
+      [⟨some "ByteAddressBufferLoadT", some [.type ⟨1, sG⟩]⟩]⟩ ⟨1, sG⟩ ∧
     wf sG = true := by
   refine ⟨?_, by decide, ?_, by decide⟩
-  · have key : ∀ x : TyRef, Matched ⟨[⟨.object "StructuredBuffer" (some ⟨1, sG⟩), "g"⟩],
+  · have key : ∀ x : TyRef, Matched ⟨[⟨.array (.modifier (.object "StructuredBuffer" (some ⟨1, sG⟩))), "g"⟩],
         [⟨some "ByteAddressBufferLoadT", some [.type ⟨1, sG⟩]⟩]⟩ x → x = ⟨1, sG⟩ := by
       intro x hx
-      rcases hx with ⟨g, hg, k, hk, _⟩ | ⟨f, hf, i, _, _, ht⟩
+      rcases hx with ⟨g, hg, k, hk, _⟩ | ⟨f, hf, i, _, _, ht, _⟩
       · simp only [List.mem_singleton] at hg
         subst hg
-        simp only [removeModifier, GTy.object.injEq, Option.some.injEq] at hk
+        have hp : peel globalPeelOps (.array (.modifier (.object "StructuredBuffer" (some ⟨1, sG⟩)))) =
+            .object "StructuredBuffer" (some ⟨1, sG⟩) := rfl
+        rw [hp] at hk
+        simp only [GTy.object.injEq, Option.some.injEq] at hk
         exact hk.2.symm
       · simp only [List.mem_singleton] at hf
         subst hf
@@ -300,7 +423,7 @@ example :
         exact ht.symm
     intro r r' h h' _
     rw [key r h, key r' h']
-  · exact .buffer _ (List.mem_singleton.2 rfl) "StructuredBuffer" (by decide) rfl
+  · exact .buffer _ (List.mem_singleton.2 rfl) "StructuredBuffer" (by decide) (.plain (.arr (.base .mod)))
 
 end collection
 
@@ -310,7 +433,7 @@ section full
 open RsslVerif.Spec.LayoutFull RsslVerif.Lemmas.LayoutFull
 
 /-- **Soundness over the full universe.**  If `check_layout` accepts, every listed type for which both rule
-    sets define a layout (`xwf`: also `bool`, `boolN`, `half`/`float` matrices) has the same total size and the
+    sets define a layout (`xwf`: also `bool`, `boolN`, `half`/`float` matrices, empty structs) has the same total size and the
     same byte offset of every field, recursively, under the full reference calculators. -/
 theorem check_sound_full (ts : List XTy) (h : checkAll (ts.map erase) = .ok) (t : XTy) (ht : t ∈ ts)
     (hw : xwf t = true) :
@@ -405,14 +528,21 @@ theorem complete_fails_beyond_plain :
       checkAll [erase (XS [.scalar .Bool, .scalar .Int32])] = .unknown 0) := by
   decide
 
-/-- **Empty structs (negation witness).**  `struct E {}; struct S { E e; float a; }` is accepted, but the
-    member `a` is at offset 0 (size 4) under HLSL packing and at offset 4 (size 8) in Metal, where an empty struct
-    occupies one byte.  (Replayed on the real compiler by `C19.prog vk:np:0 {{} f} sb@0`; known finding
-    `accepted/empty-struct`.)  This is why `xwf` excludes empty structs. -/
-theorem empty_struct_unsound :
-    checkAll [erase (XS [XS [], xf])] = .ok ∧
+/-- the former negation witness `empty_struct_unsound` turned positive (since /repo d25724e an empty struct has its
+    Metal byte): `struct E {}; struct S { E e; float a; }` — `a` at offset 0 (size 4) under HLSL packing, at offset 4
+    (size 8) in Metal — is inside `xwf` and rejected with exactly these sizes; `{half; E; float}` has the same
+    offsets [0, 2, 4] and size 8 under both rule sets and is accepted; an empty struct on its own is 0 vs 1 byte. -/
+example :
+    xwf (XS [XS [], xf]) = true ∧
     xsize .hlsl (XS [XS [], xf]) = 4 ∧ xsize .metal (XS [XS [], xf]) = 8 ∧
-    xfieldsAt .hlsl (XS [XS [], xf]) 0 = [0, 0] ∧ xfieldsAt .metal (XS [XS [], xf]) 0 = [0, 4] := by
+    xfieldsAt .hlsl (XS [XS [], xf]) 0 = [0, 0] ∧ xfieldsAt .metal (XS [XS [], xf]) 0 = [0, 4] ∧
+    checkAll [erase (XS [XS [], xf])] = .mismatch 0 ⟨4, 4⟩ ⟨8, 4⟩ ∧
+    xwf (XS [.scalar .Float16, XS [], xf]) = true ∧
+    xfieldsAt .hlsl (XS [.scalar .Float16, XS [], xf]) 0 = [0, 2, 4] ∧
+    xfieldsAt .metal (XS [.scalar .Float16, XS [], xf]) 0 = [0, 2, 4] ∧
+    checkAll [erase (XS [.scalar .Float16, XS [], xf])] = .ok ∧
+    checkAll [erase (XS [])] = .mismatch 0 ⟨0, 1⟩ ⟨1, 1⟩ ∧
+    checkAll [erase (XS [.scalar .Float16, .arr (XS []) 2, xf])] = .mismatch 0 ⟨8, 4⟩ ⟨8, 4⟩ := by
   decide
 
 /-- non-vacuity: types of the widened universe that satisfy `xwf`; a `bool`/matrix-free one among them is
